@@ -293,6 +293,24 @@ def match_known(prop, key):
     return None
 
 
+def crash_info(out):
+    """Parse a Go panic / fatal error report. Returns what/where and whether the first module frame is harness code."""
+    m = re.search(r"^(panic: .*|fatal error: .*)$", out, re.M)
+    if not m:
+        return None
+    tail = out[m.start():]
+    frames = re.findall(r"^\s+(/\S+\.go):(\d+)", tail, re.M)
+    where = "unknown"
+    harness = True
+    for f, ln in frames:
+        if "/go/src/" in f or "/golang.org/" in f or "/pkg/mod/" in f or "/usr/local/go/" in f or "/usr/lib/go" in f:
+            continue
+        where = "%s:%s" % (f.replace("/repo/", ""), ln)
+        harness = "/zzverif/" in f or "zz_verif" in f
+        break
+    return {"what": m.group(1), "where": where, "harness": harness}
+
+
 # --------------------------------------------------------------------------- check context
 
 class Ctx:
@@ -309,6 +327,7 @@ class Ctx:
         self.extra = {}
         self.violations = []   # (key, what, replay)
         self.known = []
+        self.crashes = []
         self.dup_counts = {}
         self.exhaustive_runs = []
         self.workdir = os.path.join(WORK, "run", "%s-%s-%d" % (prop, tier, os.getpid()))
@@ -367,6 +386,15 @@ class Ctx:
         except subprocess.TimeoutExpired as ex:
             raise MachineryError("driver timeout: %s" % " ".join(cmd))
         if p.returncode not in ok_codes:
+            cr = crash_info(p.stdout)
+            if cr and not cr["harness"]:
+                # the code under test crashed the process: a verdict-bearing observation, not a machinery error
+                self.crashes.append(cr)
+                self.violation("crash:process:%s" % cr["where"],
+                               "the process crashed while being driven: %s at %s" % (cr["what"][:200], cr["where"]),
+                               artefact={"cmd": " ".join(cmd), "output_tail": p.stdout[-3000:]})
+                log("driver %s crashed in code under test: %s" % (os.path.basename(binpath), cr["where"]))
+                return p.stdout
             raise MachineryError("driver failed (%d): %s\n%s" % (p.returncode, " ".join(cmd), p.stdout[-4000:]))
         log("driver %s: %.1fs" % (os.path.basename(binpath), time.time() - t0))
         return p.stdout
@@ -376,6 +404,8 @@ class Ctx:
                  defines=None, describe=None, require_events=1, only=None):
         """keyfn(event_dict, inv_name) -> stable known-findings key for the rejecting event."""
         lines = open(trace_path).read().splitlines()
+        if self.crashes or any(('"ev":"hang"' in x or '"ev":"crash"' in x) for x in lines[-50:]):
+            require_events = 0      # the trace of a crashed / wedged run is legitimately short
         if len(lines) < require_events:
             raise MachineryError("trace %s has %d events (< %d): dead driver" % (trace_path, len(lines), require_events))
         v = validate_trace(trace_module, trace_path, cfg=cfg, timeout=timeout, extra_files=extra_files,
